@@ -660,6 +660,13 @@ def _run_case(case):
         case = dict(case, requests=core.forked(lambda: tree_prepass(case),
                                                CASE_TIMEOUT))
     expected, profiles = solo(case)
+    if case['opcode']:
+        # store mode: let every code object be instrumented for instruction
+        # events here, in the main thread, before worker threads alternate
+        # on it (CPython 3.12.1 is fragile when that happens under them)
+        for i in range(case['nthreads']):
+            S.solo_profile(thread_fn(case, i, make_template(case)),
+                           opcode=case['opcode'])
     total = sum(len(p) for p in profiles)
     cap = 50 * total + 2000
     chash = core.chash([case['src'], case['threads'], case['precooked'],
